@@ -60,24 +60,7 @@ def run(eng, R):
     check(eng, R, "H-geom", M, "_bin_evaluation_antiderivative", "return",
           "asarray(self._bin_evaluation(self._bin_edges[1:], *self._model_parameters)) - asarray(self._bin_evaluation(self._bin_edges[:-1], *self._model_parameters))",
           what="antiderivative evaluation must be F(upper edges) - F(lower edges) at the current parameters")
-    f = get_func(p, M, "_bin_evaluation_numerical")
-    src = common.src_of(f.node)
-    R.ob("H-geom", "%s._bin_evaluation_numerical" % M, "zip(self._bin_edges[:-1], self._bin_edges[1:])" in src and "integrate.quad(_integrand_func, _a, _b)" in src
-         and "self.eval_model_function_density(x)" in src and "_int_val[_i], _ =" in src, (f.file, f.lineno), "numerical evaluation must integrate the density over each (lower, upper) edge pair")
-    # every bin is integrated: no path through one iteration of the bin loop skips the store
-    fnum = get_func(p, M, "_bin_evaluation_numerical")
-    g = eng.cfg(fnum)
-    loops = [n for n in g.nodes if n.kind == "for" and "zip(self._bin_edges[:-1], self._bin_edges[1:])" in " ".join(ast.unparse(n.stmt.iter).split())]
-    ok = len(loops) == 1
-    if ok:
-        def stores_bin(n):
-            st = n.stmt
-            return n.kind == "stmt" and isinstance(st, ast.Assign) and "_int_val[" in ast.unparse(st.targets[0]) and "integrate.quad" in ast.unparse(st.value)
-
-        path = g.find_path(loops[0].id, lambda m: m.id == loops[0].id, exceptional=False, avoid=stores_bin)
-        ok = path is None or len(path) <= 1
-    R.ob("H-geom", "%s._bin_evaluation_numerical:every bin" % M, ok, (fnum.file, fnum.lineno),
-         "an iteration of the bin loop can finish without integrating the density over the bin (guard / continue before the store): the content of such bins stays 0")
+    _check_numerical(eng, R, get_func(p, M, "_bin_evaluation_numerical"))
     f = get_func(p, M, "eval_model_function_density")
     src = common.src_of(f.node)
     R.ob("H-geom", "%s.eval_model_function_density" % M, "model_parameters if model_parameters is not None else self._model_parameters" in src and "self._model_function_object(x, *_pars)" in src,
@@ -85,15 +68,7 @@ def run(eng, R):
 
     # ---- selection table
     ini = get_func(p, M, "__init__")
-    sel = {}
-    for n in ast.walk(ini.node):
-        if isinstance(n, ast.Assign) and any(self_attr(t) == "_bin_evaluation_method" for t in n.targets) and self_attr(n.value):
-            for cnd, pol in common.guard_conditions(ini.node, n):
-                if pol and isinstance(cnd, ast.Compare) and self_attr(cnd.left) == "_bin_evaluation":
-                    comp = cnd.comparators[0]
-                    keys = [common.const_str(comp)] if common.const_str(comp) else [common.const_str(x) for x in getattr(comp, "elts", [])]
-                    for k in keys:
-                        sel[k] = n.value.attr
+    sel = _selection_table(p, ini)
     want = {"rectangle": "_bin_evaluation_rectangle", "midpoint": "_bin_evaluation_rectangle", "trapezoid": "_bin_evaluation_trapezoid", "simpson": "_bin_evaluation_simpson", "numerical": "_bin_evaluation_numerical"}
     for k, v in want.items():
         R.ob("S-sel", "%s.__init__:%s" % (M, k), sel.get(k) == v, (ini.file, ini.lineno), "bin_evaluation='%s' selects %s, expected %s" % (k, sel.get(k), v))
@@ -158,3 +133,131 @@ def run(eng, R):
             and "bin_evaluation=self._bin_evaluation" in args and "density=self._density" in args
     R.ob("S-fit", "HistFit._set_new_parametric_model:args", ok, (sp.file, sp.lineno),
          "the parametric model must be built from the current container's size, range and edges, the fit's model function, parameters, bin evaluation and density flag")
+
+
+def _check_numerical(eng, R, f):
+    """the numerical rule integrates the density over every (lower, upper) pair of adjacent edges and stores the integral in the slot of that bin - found structurally:
+    aliases, a def instead of a lambda, keyword bounds and a split tuple assignment are all the same thing"""
+    from . import norm
+
+    env = norm.alias_env(f.node)
+    g = eng.cfg(f)
+    loops = []
+    for n in g.nodes:
+        if n.kind != "for":
+            continue
+        it = norm.closed(n.stmt.iter, env)
+        inner = it
+        enumerated = False
+        if isinstance(inner, ast.Call) and isinstance(inner.func, ast.Name) and inner.func.id == "enumerate" and inner.args:
+            inner = inner.args[0]
+            enumerated = True
+        if isinstance(inner, ast.Call) and isinstance(inner.func, ast.Name) and inner.func.id == "zip" and len(inner.args) == 2 \
+                and [norm.txt(a) for a in inner.args] == ["self._bin_edges[:-1]", "self._bin_edges[1:]"]:
+            loops.append((n, enumerated))
+    ok = len(loops) == 1 and loops[0][1]
+    why = "the loop over zip(self._bin_edges[:-1], self._bin_edges[1:]) (enumerated) was not found"
+    every = False
+    if ok:
+        ln, _ = loops[0]
+        tg = ln.stmt.target
+        idx = tg.elts[0].id if isinstance(tg, ast.Tuple) and isinstance(tg.elts[0], ast.Name) else None
+        ab = [x.id for x in tg.elts[1].elts] if isinstance(tg, ast.Tuple) and isinstance(tg.elts[1], ast.Tuple) and all(isinstance(x, ast.Name) for x in tg.elts[1].elts) else []
+        # integrand: a lambda or nested def of one argument returning self.eval_model_function_density(<arg>)
+        integrands = set()
+        for d in ast.walk(f.node):
+            if isinstance(d, ast.FunctionDef) and d is not f.node and len(d.args.args) == 1:
+                rets = [r.value for r in ast.walk(d) if isinstance(r, ast.Return) and r.value is not None]
+                if len(rets) == 1 and norm.txt(rets[0]) == "self.eval_model_function_density(%s)" % d.args.args[0].arg:
+                    integrands.add(d.name)
+            if isinstance(d, ast.Assign) and isinstance(d.value, ast.Lambda) and len(d.value.args.args) == 1 and isinstance(d.targets[0], ast.Name) \
+                    and norm.txt(d.value.body) == "self.eval_model_function_density(%s)" % d.value.args.args[0].arg:
+                integrands.add(d.targets[0].id)
+        quads = []
+        for c in ast.walk(ln.stmt):
+            if isinstance(c, ast.Call) and norm.txt(c.func).endswith("quad"):
+                kw = {k.arg: k.value for k in c.keywords}
+                args = list(c.args) + [None] * 3
+                fn_ = args[0] if args[0] is not None else kw.get("func")
+                a_ = args[1] if args[1] is not None else kw.get("a")
+                b_ = args[2] if args[2] is not None else kw.get("b")
+                quads.append((c, isinstance(fn_, ast.Name) and fn_.id in integrands and len(ab) == 2 and norm.txt(a_) == ab[0] and norm.txt(b_) == ab[1]))
+        ok = len(quads) == 1 and quads[0][1] and idx is not None
+        why = "the density is not integrated with quad(<density>, lower, upper) over the loop's own edge pair"
+        if ok:
+            qc = quads[0][0]
+            # the first element of the result reaches <store>[idx] on every path of an iteration
+            first_names = set()
+            direct = []
+            for st in ast.walk(ln.stmt):
+                if isinstance(st, ast.Assign) and st.value is qc:
+                    t = st.targets[0]
+                    if isinstance(t, ast.Tuple) and t.elts:
+                        if isinstance(t.elts[0], ast.Name):
+                            first_names.add(t.elts[0].id)
+                        elif isinstance(t.elts[0], ast.Subscript) and norm.txt(t.elts[0].slice) == idx:
+                            direct.append(st)
+                if isinstance(st, ast.Assign) and isinstance(st.value, ast.Subscript) and st.value.value is qc and norm.txt(st.value.slice) == "0":
+                    t = st.targets[0]
+                    if isinstance(t, ast.Subscript) and norm.txt(t.slice) == idx:
+                        direct.append(st)
+                    elif isinstance(t, ast.Name):
+                        first_names.add(t.id)
+
+            def stores_bin(m):
+                st = m.stmt
+                if m.kind != "stmt" or not isinstance(st, ast.Assign):
+                    return False
+                if any(st is d for d in direct):
+                    return True
+                t = st.targets[0]
+                return isinstance(t, ast.Subscript) and norm.txt(t.slice) == idx and isinstance(st.value, ast.Name) and st.value.id in first_names
+
+            path = g.find_path(ln.id, lambda m: m.id == ln.id, exceptional=False, avoid=stores_bin)
+            every = path is None or len(path) <= 1
+            stores = [m for m in g.nodes if stores_bin(m)]
+            ok = bool(stores)
+            why = "the integral is not stored in the slot of its bin"
+            if ok:
+                arrs = {norm.txt((m.stmt.targets[0].elts[0] if isinstance(m.stmt.targets[0], ast.Tuple) else m.stmt.targets[0]).value) for m in stores}
+                rets = [norm.ctxt(r.value, env) for r in ast.walk(f.node) if isinstance(r, ast.Return) and r.value is not None and not any(r in list(ast.walk(d)) for d in ast.walk(f.node) if isinstance(d, ast.FunctionDef) and d is not f.node)]
+                ok = len(arrs) == 1 and rets == [next(iter(arrs))] or (len(arrs) == 1 and all(r == norm.ctxt(ast.Name(id=next(iter(arrs)), ctx=ast.Load()), env) for r in rets) and bool(rets))
+                why = "the array of integrals is not what the rule returns"
+    R.ob("H-geom", "%s._bin_evaluation_numerical" % M, ok, (f.file, f.lineno), "numerical evaluation must integrate the density over each (lower, upper) edge pair: %s" % why)
+    R.ob("H-geom", "%s._bin_evaluation_numerical:every bin" % M, ok and every, (f.file, f.lineno),
+         "an iteration of the bin loop can finish without integrating the density over the bin (guard / continue before the store): the content of such bins stays 0")
+
+
+def _selection_table(p, ini):
+    """string -> name of the evaluation method selected for it, read from the assignments to self._bin_evaluation_method in __init__ (guarded by comparisons of
+    self._bin_evaluation) or from a helper `self.<helper>(self._bin_evaluation)` that returns the method under the same comparisons of its parameter"""
+    from . import norm
+
+    sel = {}
+
+    def keys_of(cnd, subject_ok):
+        if isinstance(cnd, ast.Compare) and len(cnd.ops) == 1 and isinstance(cnd.ops[0], (ast.Eq, ast.In)) and subject_ok(cnd.left):
+            comp = cnd.comparators[0]
+            return [common.const_str(comp)] if common.const_str(comp) else [common.const_str(x) for x in getattr(comp, "elts", [])]
+        return []
+
+    for n in ast.walk(ini.node):
+        if not (isinstance(n, ast.Assign) and any(self_attr(t) == "_bin_evaluation_method" for t in n.targets)):
+            continue
+        if self_attr(n.value):
+            for cnd, pol in common.guard_conditions(ini.node, n):
+                if pol:
+                    for k in keys_of(cnd, lambda e: self_attr(e) == "_bin_evaluation"):
+                        sel[k] = n.value.attr
+        elif isinstance(n.value, ast.Call) and isinstance(n.value.func, ast.Attribute) and is_self(n.value.func.value) and n.value.args and self_attr(n.value.args[0]) == "_bin_evaluation":
+            h = ini.cls.find_method(n.value.func.attr)
+            if h is None:
+                continue
+            par = h.node.args.args[1].arg if len(h.node.args.args) > 1 else None
+            for conds, val in norm.returns_under_guards(h.node):
+                if val is not None and self_attr(val):
+                    pos = [c for c, pol in conds if pol]
+                    if pos:
+                        for k in keys_of(pos[-1], lambda e: isinstance(e, ast.Name) and e.id == par):
+                            sel[k] = val.attr
+    return sel
